@@ -252,6 +252,9 @@ func (e *c20Engine) generate(seed uint64) (*kit.Trace, *kit.Rng) {
 			t.Sites = append(t.Sites, s)
 		}
 	}
+	if kind == kindLin && cr.Chance(1, 30) {
+		t.Config["ungated"] = 1
+	}
 	// statement-level preemption (automatic instrumentation of the scratch
 	// copy): in about half of the runs, every k-th statement offers a decision
 	if cr.Chance(1, 2) {
@@ -904,6 +907,14 @@ func (e *c20Engine) execute(t *kit.Trace, srng *kit.Rng, st *kit.Stats, record b
 		s = sched.New(nt, nil, t.Schedule, maxSteps)
 	}
 	s.GateSite = bloom.SimSiteBeforeLock
+	if t.Cfg("ungated", 0) == 1 {
+		// no gate: a task may walk into a held lock for real. A blocking Lock
+		// is then handled as a task blocked inside the runtime; a NON-blocking
+		// attempt (TryLock) takes its failure branch, which the gate would
+		// never let happen.
+		s.GateSite = -1
+		s.StallSpins = 4000
+	}
 	s.SparseSites[siteStmt], s.SparseSites[siteStmtGCS], s.SparseSites[siteStmtRepo] = true, true, true
 	s.SparseEvery = int(t.Cfg(stmtEveryKey, 1))
 	for _, x := range t.Sites {
